@@ -163,6 +163,13 @@ def work(item):
                     f1 = T.fsub(Fraction(1), f2)
                     want = [T.fadd(T.fmul(f1, a_), T.fmul(f2, b_)) for a_, b_ in zip(rho(k, irho), rho(k + 1, irho))]
                     polys = [rat_equal(g, w) for g, w in zip(got, want)]
+                    # shape: f1*rho_k + f2*rho_{k+1} with f1 = 1 - f2, one rounding per operation; another arrangement (e.g. rho_k + f2*(rho_{k+1}-rho_k))
+                    # is equal in exact reals but loses the smaller node's state in doubles when the two differ by many orders of magnitude
+                    if all(g is w for g, w in zip(got, want)):
+                        dec.holds('%s for x in (x_%d,x_%d): every component is the term (1-f2)*rho_%d + f2*rho_%d [nx=%d d=%d]' % (nm, k, k + 1, k, k + 1, nx, d))
+                    elif all(pp.is_zero() if hasattr(pp, 'is_zero') else False for pp in polys):
+                        dec.candidate(key + ':shape', '%s combines the two node states by another formula than (1-f2)*rho_k + f2*rho_k+1 (component 0: %s): equal in exact reals only' % (nm, T.show(got[0], 5)),
+                                      kind='interp-shape', d=d, nx=nx, nrho=nrho, which=which, d0=d0, irho=irho, interval=k)
                 else:
                     got = p.out('out')[0]
                     if avg:
@@ -227,6 +234,29 @@ def replay(chk, h, c):
     n = d * d
     rng = np.random.RandomState(chk.seed + 23)
     inp = {k: float(Fraction(v)) for k, v in c.get('input', {}).items()}
+    if c['kind'] == 'interp-shape':
+        # special magnitudes: neighbouring node states that differ by 16 orders of magnitude, x at and next to the node with the small state
+        irho = c.get('irho', 0)
+        worst = 0.0
+        for big_left in (True, False):
+            xs = np.arange(nx) * 1.0 + 0.5
+            stv = rng.uniform(0.5, 1, nx * nrho * n)
+            k = c.get('interval', 0)
+            scale = np.ones(nx)
+            scale[k if big_left else k + 1] = 1e16
+            for ix in range(nx):
+                stv[(ix * nrho + irho) * n:(ix * nrho + irho) * n + n] *= scale[ix]
+            small = k + 1 if big_left else k
+            for xq in (xs[small], float(np.nextafter(xs[small], xs[k if big_left else k + 1]))):
+                ret, o = h.native('h_expectD', [I(4), I(nx), I(d), I(nrho), I(irho), Buf('xs', xs), Buf('st', stv), Buf('op', rng.uniform(-1, 1, n)), D(xq), D(1.3), D(0.2), D(1e30), I(0), Buf('out', n=n), IBuf('flags', [0] * (d * (d - 1) // 2))])
+                if ret != 0:
+                    return True, 1.0
+                f2 = Fraction(xq) - Fraction(xs[k])
+                f2 = f2 / (Fraction(xs[k + 1]) - Fraction(xs[k]))
+                want = [float((1 - f2) * Fraction(stv[(k * nrho + irho) * n + q]) + f2 * Fraction(stv[((k + 1) * nrho + irho) * n + q])) for q in range(n)]
+                dev = max(abs(g - w) / max(abs(w), 1e-300) for g, w in zip(o['out'], want))
+                worst = max(worst, dev)
+        return worst > 1e-9, worst
     worst = 0.0
     for trial in range(5):
         if inp and trial == 0 and all(('x%d' % i) in inp for i in range(nx)) and all(inp['x%d' % i] < inp['x%d' % (i + 1)] for i in range(nx - 1)):
@@ -331,6 +361,8 @@ def main(tier):
         ok, dev = safe_replay(replay, chk, hn, c)
         if ok:
             chk.report(c['key'], '%s; native deviation %.3g' % (c['what'], dev), c)
+        elif c.get('kind') == 'interp-shape':
+            chk.obligation('%s -- native special-magnitude battery clean: accepted' % c['what'][:160], 'holds natively (not solver-decided)')
         else:
             chk.broken_q('counterexample for %s did not reproduce natively (deviation %.3g): %s' % (c['key'], dev, c['what'][:200]))
     return chk.finish()
